@@ -94,7 +94,7 @@ def _flags(work):
 def _run_shard(args):
     """Compile preamble + blocks; isolate failing blocks one at a time. Returns {name: (ok, log)}, closed count."""
     work, k, pre, blocks = args
-    res, closed = {}, 0
+    res, closed, lib = {}, 0, None
     todo = list(blocks)
     rounds = 0
     while todo:
@@ -111,6 +111,7 @@ def _run_shard(args):
             for b in todo:
                 res[b[0]] = (True, "")
             closed += out.count("Closed under the global context")
+            lib = "Coercion.SmGraph.props." + name_v[:-2]
             break
         m = re.search(r'File "[^"]*", line (\d+)', out)
         bad = None
@@ -125,7 +126,7 @@ def _run_shard(args):
             break
         res[bad[0]] = (False, out[-1500:])
         todo = [b for b in todo if b[0] != bad[0]]
-    return res, closed
+    return res, closed, lib
 
 
 def _parse_lists(out):
@@ -164,6 +165,19 @@ def _fmt_sites(sites):
     return out
 
 
+def _new_only(sites, others):
+    """sites whose guard chain does not occur among `others` (falls back to all of them)."""
+    have = [" && ".join(o["guards"]) for o in others]
+    out = []
+    for x in sites:
+        g = " && ".join(x["guards"])
+        if g in have:
+            have.remove(g)
+        else:
+            out.append(x)
+    return out or sites
+
+
 def structural_diff(lists, new_graph, snap_graph):
     """Pair surplus and missing return sites of the same state into re-routings; attach guards/positions."""
     added = list(lists.get("r_edges_added", []))
@@ -183,8 +197,8 @@ def structural_diff(lists, new_graph, snap_graph):
     readable = []
     for x in rerouted:
         readable.append("RE-ROUTED  %s: a return site declared as  %s  now is  %s" % (x["state"], _fmt_key(x["was"]), _fmt_key(x["now"])))
-        x["now_sites"] = _sites(new_graph, x["now"])
-        x["was_sites_in_snapshot"] = _sites(snap_graph, x["was"])
+        x["now_sites"] = _new_only(_sites(new_graph, x["now"]), _sites(snap_graph, x["now"]))
+        x["was_sites_in_snapshot"] = _new_only(_sites(snap_graph, x["was"]), _sites(new_graph, x["was"]))
         readable.append("    sites now taking the new edge:")
         readable += _fmt_sites(x["now_sites"])
         if x["was_sites_in_snapshot"]:
@@ -192,12 +206,12 @@ def structural_diff(lists, new_graph, snap_graph):
             readable += _fmt_sites(x["was_sites_in_snapshot"])
     add_l, rem_l = [], []
     for k in only_added:
-        s = _sites(new_graph, k)
+        s = _new_only(_sites(new_graph, k), _sites(snap_graph, k))
         add_l.append(dict(edge=k, sites=s))
         readable.append("ADDED      %s  (one more return site than declared)" % _fmt_key(k))
         readable += _fmt_sites(s)
     for k in only_removed:
-        s = _sites(snap_graph, k)
+        s = _new_only(_sites(snap_graph, k), _sites(new_graph, k))
         rem_l.append(dict(edge=k, sites_in_snapshot=s))
         readable.append("REMOVED    %s  (one return site fewer than declared)" % _fmt_key(k))
         readable += _fmt_sites(s)
@@ -231,10 +245,11 @@ def guard_drift(new_graph, snap_graph):
             t.setdefault(_edge_key(e), []).append(" && ".join(e["guards"]))
         return {k: sorted(v) for k, v in t.items()}
     a, b = table(new_graph), table(snap_graph)
-    return [dict(edge=k, now=a[k], snapshot=b[k]) for k in sorted(a) if k in b and a[k] != b[k]]
+    return [dict(edge=k, now=a[k], snapshot=b[k]) for k in sorted(a) if k in b and a[k] != b[k] and len(a[k]) == len(b[k])]
 
 
-def check_smgraph(ctx):
+def check_smgraph(ctx, report=True):
+    """report=False: record the obligations and return the diff, but leave the VIOLATION line to the caller."""
     t0 = time.time()
     res = dict(ok=False, failed=[], diff=None, readable=[], guard_drift=[], graph=None, theorems=[])
     pdir = fw.project_dir(PROJ)
@@ -286,12 +301,14 @@ def check_smgraph(ctx):
     shards = [(work, k, pre, blocks[k::nsh]) for k in range(nsh)]
     with open(os.path.join(work, "SmGraphReport.v"), "w") as f:
         f.write(REPORT_V)
-    results, closed = {}, 0
+    results, closed, libs = {}, 0, []
     with concurrent.futures.ThreadPoolExecutor(max_workers=nsh + 1) as ex:
         rep_f = ex.submit(fw.sh, ["coqc"] + _flags(work) + ["SmGraphReport.v"], work, None, 600)
-        for r, c in ex.map(_run_shard, shards):
+        for r, c, lib in ex.map(_run_shard, shards):
             results.update(r)
             closed += c
+            if lib:
+                libs.append(lib)
         rrc, rout = rep_f.result()
     failed = []
     for name, kind, _ in blocks:
@@ -302,13 +319,27 @@ def check_smgraph(ctx):
             failed.append(name)
     ok_closed = closed >= len([t for t in theorems if t not in failed])
     ctx.oblige("smgraph: Print Assumptions of every re-proved theorem says Closed under the global context", ok_closed)
+    if ctx.tier == "thorough":
+        trc, tout = fw.sh([fw.GO, "test", "-count=1", "./cmd/smgraph"], cwd=fw.HARNESS, env=fw.GOENV, timeout=900)
+        ctx.oblige("smgraph: extractor self-tests (flow analysis and fail-closed cases on synthetic state methods) pass", trc == 0)
+        if trc != 0:
+            failed.append("extractor self-tests")
+            res["selftest_log"] = tout[-1500:]
+    if ctx.tier == "thorough" and libs and not os.environ.get("VERIF_NO_COQCHK"):
+        # independent re-check of the re-proved theorems (and of everything they depend on) with coqchk
+        crc, cout = fw.sh(["coqchk", "-silent", "-o"] + _flags(work) + libs, cwd=work, timeout=3000)
+        ok_chk = crc == 0 and "* Axioms: <none>" in cout
+        ctx.oblige("smgraph: coqchk -silent -o of the re-proved theorems lists no axioms", ok_chk)
+        res["coqchk"] = cout[-1200:]
+        if not ok_chk:
+            failed.append("coqchk")
     lists = _parse_lists(rout) if rrc == 0 else {}
     diff, readable = structural_diff(lists, new_graph, snap_graph)
     res.update(diff=diff, readable=readable, failed=failed, guard_drift=guard_drift(new_graph, snap_graph),
                closed_under_global_context=closed, wall_s=round(time.time() - t0, 1),
                edges=len(new_graph.get("edges", [])), methods=len(new_graph.get("methods", [])))
     res["ok"] = not failed and ok_closed
-    if failed or not ok_closed:
+    if (failed or not ok_closed) and report:
         logs = {n: results[n][1][-800:] for n in failed if n in results}
         ctx.say("SMGRAPH: the state-chain graph extracted from %s is not the declared one; %d obligation(s) fail: %s"
                 % (fw.REPO, len(failed), ", ".join(failed)))
